@@ -16,8 +16,13 @@ pub struct Img {
     pub data: Vec<u8>,
     /// store 8-bit data as OB/U8 (false: OW) — 16-bit data is always OW/U16
     pub ob: bool,
+    /// Planar Configuration (only written for 3 samples)
+    pub planar: u16,
+    /// MONOCHROME1 instead of MONOCHROME2 (1 sample)
+    pub mono1: bool,
 }
 
+#[allow(dead_code)]
 impl Img {
     pub fn frame_size(&self) -> usize {
         self.rows as usize * self.cols as usize * self.spp as usize * (self.bits as usize / 8)
@@ -32,10 +37,16 @@ impl Img {
         o.put(DataElement::new(
             tags::PHOTOMETRIC_INTERPRETATION,
             VR::CS,
-            if self.spp == 3 { "RGB" } else { "MONOCHROME2" },
+            if self.spp == 3 {
+                "RGB"
+            } else if self.mono1 {
+                "MONOCHROME1"
+            } else {
+                "MONOCHROME2"
+            },
         ));
         if self.spp == 3 {
-            o.put(DataElement::new(tags::PLANAR_CONFIGURATION, VR::US, PrimitiveValue::from(0u16)));
+            o.put(DataElement::new(tags::PLANAR_CONFIGURATION, VR::US, PrimitiveValue::from(self.planar)));
         }
         if self.frames_attr {
             o.put(DataElement::new(tags::NUMBER_OF_FRAMES, VR::IS, self.frames.to_string()));
